@@ -231,10 +231,14 @@ impl TypeCollector {
         visitor: &V,
         config: &GenerateConfig,
     ) -> Vec<StructContext> {
-        used_structs
-            .iter()
-            .map(|(name, struct_info)| {
-                StructContext::new(config).from_struct_info(name, struct_info, visitor)
+        // Sorted by name so that the declaration order is the same on every run
+        let mut names: Vec<&String> = used_structs.keys().collect();
+        names.sort();
+
+        names
+            .into_iter()
+            .map(|name| {
+                StructContext::new(config).from_struct_info(name, &used_structs[name], visitor)
             })
             .collect()
     }
